@@ -25,6 +25,7 @@ fn main() {
         ("fes", "record") => fes::record(&args[2..]),
         ("rt", "replay") => rt::replay(&args[2..]),
         ("rt", "record") => rt::record(&args[2..]),
+        ("rt", "time") => rt::time_cases(&args[2..]),
         ("props", "replay") => props::replay(&args[2..]),
         ("props", "slots") => props::replay_slots(&args[2..]),
         ("body", "replay") => body::replay(&args[2..]),
@@ -33,6 +34,7 @@ fn main() {
         ("ndl", "replay") => ndl::replay(&args[2..]),
         ("ndl", "grammar") => ndl::grammar(&args[2..]),
         ("tree", "replay") => tree::replay(&args[2..]),
+        ("tree", "paths") => tree::paths(&args[2..]),
         ("net", "replay") => net::replay(&args[2..]),
         ("gates", "replay") => gates::replay(&args[2..]),
         ("gates", "record") => gates::record(&args[2..]),
